@@ -2502,7 +2502,7 @@ def build_sched_harness(pipe, res, tsan=False):
         res.oblige('D:build-lib-shim', False, str(f)[:1500])
         return None
     gen = sorted(glob_mod.glob(os.path.join(tr['cpp'], 'gen_reflect_*.cpp')))
-    exe, f = lib.build_exe('sched_harness', [os.path.join(VERIF, 'harness', 'sched_harness.cpp'), os.path.join(VERIF, 'harness', 'vshim', 'vshim.cpp')] + gen, a, fl, force_include=V)
+    exe, f = lib.build_exe('sched_harness', [os.path.join(VERIF, 'harness', 'sched_harness.cpp'), os.path.join(VERIF, 'harness', 'vshim', 'vshim.cpp')] + gen, a, fl + ['-fno-access-control'], force_include=V)
     if exe is None:
         res.oblige('D:build-sched-harness', False, str(f)[:1500])
     return exe
@@ -2995,11 +2995,55 @@ def residency_oracle(res, runs):
     res.oblige('D:residency-oracle', bad == 0 and nheld > 0, '%d sessions violate the bound, %d dumps' % (bad, nheld))
 
 
+def read_residency_sessions(res, pipe, fc, fexe, summary):
+    """read sessions on the real File under the controlled scheduler (so that the result does not depend on the machine's timing):
+    files of many small containers; when the application has seen the end, every container that lies completely before the get
+    position has been handed back (C12_read_held_after_drop: what is held starts in the container of the get position), whatever
+    the schedule - also when the whole file fits into the read-ahead and the parser never falls behind"""
+    sexe = build_sched_harness(pipe, res)
+    if sexe is None:
+        return
+    ti = next(i for i, f in enumerate(next(c for c in summary['classes'] if c['name'] == 'AppText')['fields']) if f['name'] == 'text')
+    env = fc.fenv()
+    reqs, meta = [], []
+    for lvl, cs, n, ln in ((0, 64, 40, 30), (1, 256, 60, 100), (0, 4096, 50, 1500), (0, 64, 12, 200)):
+        rq = 'writefile level=%d cs=%d rp=0 ' % (lvl, cs) + ' '.join(';; AppText %d=%s' % (ti, '%02x' % (0x41 + j % 26) * ln) for j in range(n))
+        w, rc, err = lib.session(fexe, [rq], env=env, timeout=300)
+        if not (w and w[0].startswith('writefile out=')):
+            res.oblige('D:residency-read-sessions', False, 'file not written: %s' % ((w[0] if w else err)[-200:]))
+            return
+        fhex = w[0].split('out=')[1].split()[0]
+        ncont = max(1, (n * (ln + 48)) // cs)
+        for pol in ['policy=nonpreempt'] + ['policy=%s seed=%d' % (p_, lib.seed() * 10 + k) for p_ in ('random', 'pct') for k in range(2 if res.tier == 'quick' else 12)]:
+            reqs.append('rsess file=%s close=-1 %s' % (fhex, pol)); meta.append((cs, n, ncont, pol))
+    ans, rc, err = lib.psession(sexe, reqs, env=env, timeout=3600)
+    if len(ans) != len(reqs):
+        res.oblige('D:residency-read-sessions', False, '%d answers for %d requests %s' % (len(ans), len(reqs), err[-400:]))
+        return
+    worst = 0
+    bad = 0
+    for rq, (cs, n, ncont, pol), a in zip(reqs, meta, ans):
+        res.corr['requests'] += 1
+        d = kv(a)
+        if 'outcome=done' not in a or d.get('null') != '1' or 'held' not in d:
+            continue        # deadlocks / wrong results are the business of C06 / C07
+        held = int(d['held'])
+        worst = max(worst, held)
+        if held > 2 and bad == 0:
+            bad += 1
+            res.violation('residency', 'read session: %d containers (%s bytes) are still held when the application has seen the end of a file of about %d containers of %d bytes (schedule %s): consumed containers are not handed back' % (
+                held, d.get('heldbytes'), ncont, cs, pol), {'class': 'File', 'failure': 'consumed-containers-held-read-session', 'request': rq, 'answer': a[:200]})
+    res.corr['read_residency_sessions'] = len(reqs)
+    res.corr['read_residency_worst_held_containers'] = worst
+    res.oblige('D:residency-read-sessions', True, '')
+
+
 def check_C12(res):
     fc, pipe, summary, exact, fexe, cexe = file_setup(res, 'C12', C12_THEOREMS)
     runs = monitor_corr(pipe, res, 'ws', 300 if res.tier == 'quick' else 3000, 40)
     res.corr['write_sessions'] = len(runs)
     residency_oracle(res, runs)
+    read_residency_sessions(res, pipe, fc, fexe, summary)
     env = dict(fc.fenv()); env['VERIF_WATCHDOG_S'] = '300'
     BUF = 0x20000
     QCAP = 10
